@@ -12,8 +12,12 @@ class StmtsMixin:
         try:
             for s in lst or []:
                 self.stmt(st, s)
-        finally:
+        except (ReturnEx, PanicEx):
+            raise                      # keep the scope: function-level hints and postconditions may name locals
+        except BaseException:
             st.names = saved
+            raise
+        st.names = saved
 
     def stmt(self, st, s):
         m = getattr(self, 'st_' + s['_'], None)
@@ -255,10 +259,64 @@ class StmtsMixin:
             st.names = saved
 
     def st_TypeSwitchStmt(self, st, s):
-        raise Unsupported('type switch @%s' % s.get('line'))
+        saved = dict(st.names)
+        try:
+            if s.get('Init'):
+                self.stmt(st, s['Init'])
+            a = s['Assign']
+            ta = a['Rhs'][0] if a['_'] == 'AssignStmt' else a['X']
+            x = self.ev(st, ta['X'])
+            if not isinstance(x, IfaceV):
+                raise Unsupported('type switch on non-interface value')
+            if x.tag is None:
+                x.tag = fresh('tag')
+            default, taken, ttid = None, None, None
+            for cc in s['Body'].get('List') or []:
+                if not cc.get('List'):
+                    default = cc; continue
+                conds = []
+                for t in cc['List']:
+                    if t.get('isNil') or (t['_'] == 'Ident' and t['Name'] == 'nil'):
+                        conds.append(x.ref == 0)
+                    elif self.tt.kind(t['t']) == 'iface':
+                        raise Unsupported('type switch case on interface type')
+                    else:
+                        conds.append(z3.And(x.ref != 0, x.tag == self.type_tag(t['t'])))
+                if self.fork(st, z3.Or(conds) if len(conds) > 1 else conds[0]):
+                    taken = cc
+                    ttid = cc['List'][0]['t'] if len(cc['List']) == 1 and not cc['List'][0].get('isNil') else None
+                    break
+            if taken is None:
+                taken = default
+            if taken is not None:
+                imp = taken.get('implicit')
+                if imp is not None:
+                    st.env[imp['id']] = self.unbox(st, x, ttid) if ttid is not None else x
+                    st.names[imp['name']] = imp['id']
+                try:
+                    self.block(st, taken.get('Body'))
+                except BreakEx as b:
+                    if b.label is not None:
+                        raise
+        finally:
+            st.names = saved
 
     def type_assert(self, st, e, commaok):
-        raise Unsupported('type assertion @%s' % e.get('line'))
+        x = self.ev(st, e['X'])
+        tid = e['Type']['t']
+        if not isinstance(x, IfaceV):
+            raise Unsupported('type assertion on non-interface')
+        if x.tag is None:
+            x.tag = fresh('tag')
+        if self.tt.kind(tid) == 'iface':
+            raise Unsupported('assertion to interface type @%s' % e.get('line'))
+        ok = z3.And(x.ref != 0, x.tag == self.type_tag(tid))
+        if commaok:
+            v = self.unbox(st, x, tid)
+            return TupleV([v, ok])
+        if not self.fork(st, ok):
+            raise PanicEx('type assertion failed@%s' % e.get('line'))
+        return self.unbox(st, x, tid)
 
     # ---------------------------------------------------------------------------------- loops
     def loop_id(self, s):
@@ -288,14 +346,22 @@ class StmtsMixin:
             while t['_'] in ('ParenExpr',):
                 t = t['X']
             base = t
+            through_ref = False
             while base['_'] in ('IndexExpr', 'SelectorExpr', 'StarExpr', 'ParenExpr') and not (base['_'] == 'SelectorExpr' and base.get('sel') is None):
+                xk = self.tt.kind(base['X']['t']) if base['X'].get('t') is not None else None
                 if base['_'] == 'SelectorExpr':
                     acc_fields.add((base['X'].get('t'), base['Sel']['Name']))
+                    if xk == 'ptr': through_ref = True
                 if base['_'] == 'IndexExpr':
                     acc_fields.add(('elems', id(base)))
                     acc_calls.append(('elemwrite', base['X']))
+                    if xk in ('slice', 'ptr'): through_ref = True
+                if base['_'] == 'StarExpr':
+                    through_ref = True
+                if through_ref:
+                    break
                 base = base['X']
-            if base['_'] == 'Ident' and base.get('obj') and base['obj']['kind'] == 'Var':
+            if not through_ref and base['_'] == 'Ident' and base.get('obj') and base['obj']['kind'] == 'Var':
                 acc_vars.add(base['obj']['id'])
         if k == 'CallExpr':
             acc_calls.append(('call', node))
